@@ -433,6 +433,17 @@ def run(ctx):
     for meth in ("CIFColumn.as_item", "CIFColumn.as_array"):
         f = s.func(meth)
         got = {}
+        # as_array, however the tokens reach the stores: the function composed with masked_value fixed to None (the default: write
+        # the CIF tokens) contains  __set__(array, [mask == MaskValue.X], 'tok')
+        sm_pe = summarize(f, env0={"masked_value": ast.Constant(None)})
+        terms = [sm_pe.result] + list(sm_pe.env.values()) if not sm_pe.unsupported else []
+        for t_ in terms:
+            for c_ in ast.walk(t_) if t_ is not None else []:
+                if isinstance(c_, ast.Call) and call_name(c_) == "__set__" and len(c_.args) == 3 and isinstance(c_.args[2], ast.Constant) \
+                        and c_.args[2].value in (".", "?"):
+                    names = [d for d in (dotted(x) for x in ast.walk(c_.args[1])) if d and d.startswith("MaskValue.")]
+                    if names:
+                        got[c_.args[2].value] = names[0].split(".")[-1]
         for n in ast.walk(f):
             # as_array:  array[mask == MaskValue.X] = 'tok'
             if isinstance(n, ast.Assign) and isinstance(n.value, ast.Constant) and n.value.value in (".", "?"):
